@@ -332,7 +332,7 @@ impl Monitor for C07Mon {
 fn c07_tweak(g: &mut Gen, mc: &mut MachCfg, hc: &mut HistCfg) {
     mc.p_limit = 0.9;
     mc.action_w = [1, 1, 5, 4, 4];
-    mc.p_signal = 0.0;
+    mc.p_signal = *g.pick(&[0.0, 0.0, 0.1, 0.2]);
     mc.p_end = 0.01;
     mc.limits = vec![0.0, 1.0, 1.0, 2.0, 2.0, 3.0, 4.0];
     mc.p_trans = *g.pick(&[0.25, 0.4, 0.6]);
@@ -636,7 +636,7 @@ impl Monitor for C08Mon {
 fn c08_tweak(g: &mut Gen, mc: &mut MachCfg, hc: &mut HistCfg) {
     mc.p_counter = *g.pick(&[0.6, 0.9]);
     mc.p_trans = *g.pick(&[0.3, 0.5, 0.8]);
-    mc.p_signal = 0.0;
+    mc.p_signal = *g.pick(&[0.0, 0.0, 0.1, 0.25]);
     mc.p_end = 0.01;
     mc.p_limit = 0.2;
     // CounterZero transitions matter here
